@@ -1,6 +1,7 @@
 import ast
 import inspect
 import textwrap
+from functools import cached_property
 from typing import AbstractSet, Callable, Collection, Dict, Set
 
 Dependencies = AbstractSet[str]
@@ -52,6 +53,8 @@ def find_all_dependencies(
             member = getattr(cls, attr)
             if isinstance(member, property):
                 member = member.fget
+            elif isinstance(member, cached_property):
+                member = member.func
             if callable(member):
                 dependencies.remove(attr)
                 if member in rec_guard:
